@@ -823,6 +823,23 @@ done:
 	return out;
 }
 
+// a legacy signature with an RFC 3161 record (the reference world cannot make one: taken from the repository's test resources)
+static std::string op_verify_rfc3161(Env &e) {
+	std::string out; int res; KSI_Signature *s = nullptr;
+	static std::string bytes;
+	if (bytes.empty()) {
+		const char *repo = getenv("REPO");
+		js::read_file(std::string(repo && *repo ? repo : "/repo") + "/test/resource/tlv/signature-with-rfc3161-record-ok.ksig", bytes);
+		if (bytes.empty()) return "SKIP";
+	}
+	CK(KSI_Signature_parseWithPolicy(e.ctx, (unsigned char *)bytes.data(), bytes.size(), KSI_VERIFICATION_POLICY_EMPTY, NULL, &s), "parse");
+	CK(KSI_Signature_verifyWithPolicy(s, NULL, 0, KSI_VERIFICATION_POLICY_INTERNAL, NULL), "verify");
+	out = sdk::serialize(s) == bytes ? "OK:verified" : "E:serialize";
+done:
+	KSI_Signature_free(s);
+	return out;
+}
+
 struct Case { const char *name; std::function<std::string(Env &)> op; };
 
 static std::vector<Case> &catalogue() {
@@ -863,6 +880,7 @@ static std::vector<Case> &catalogue() {
 		{"sign_blocking_on_long_lived_context", sign_after_warm_up},
 		{"extend_blocking_on_long_lived_context", extend_after_warm_up},
 		{"verify_twice_unexpanded_metadata_link", op_verify_twice_unexpanded},
+		{"verify_internal_rfc3161_legacy_signature", op_verify_rfc3161},
 	};
 	return c;
 }
